@@ -17,6 +17,9 @@ TRANSCRIBED = ["visit_FunctionDef", "visit_AsyncFunctionDef", "visit_ClassDef", 
                "visit_While", "visit_Try", "visit_With", "visit_AsyncWith", "register_stmts"]
 
 
+NAME_SITES = ["get_and_verify_name", "visit_compound_name", "visit_NamedExpr"]
+
+
 def _functions(tree):
     """(qualified name, node) of every def in the file, methods as `Class.method`."""
     out = []
@@ -123,7 +126,40 @@ def tables():
     # every module-level function / method of _root_context.py (a new helper shows up here)
     rc_tree = ast.parse((ctx_dir / "_root_context.py").read_text())
     fn_names = [qn for qn, _ in _functions(rc_tree)]
+    # ---- the traversal sites of FunctionAnalyser (which sub-expressions are reached, in which order)
+    import rattr.analyser.function as fa_mod
+    import rattr.ast.types as ast_types
+
+    fa_tree = ast.parse(Path(fa_mod.__file__).read_text())
+    fa_fns = [(qn.split(".", 1)[1], fn) for qn, fn in _functions(fa_tree) if qn.startswith("FunctionAnalyser.") and qn.count(".") == 1]
+    if len(fa_fns) < 20:
+        raise ValueError("FunctionAnalyser: implausibly few methods")
+    one = lambda st: ast.unparse(st).replace("\n", " ; ")   # noqa: E731
+    loops = []
+    for m, fn in fa_fns:
+        for n in ast.walk(fn):
+            if isinstance(n, (ast.For, ast.AsyncFor)):
+                loops.append((n.lineno, m, ast.unparse(n.target), ast.unparse(n.iter), [one(x) for x in n.body]))
+    loops.sort()
+    site_bodies = []
+    for m in NAME_SITES:
+        fn = next((f for q, f in fa_fns if q == m), None)
+        if fn is None:
+            raise ValueError(f"FunctionAnalyser lacks {m}")
+        body = list(fn.body)
+        if body and isinstance(body[0], ast.Expr) and isinstance(body[0].value, ast.Constant) and isinstance(body[0].value.value, str):
+            body = body[1:]
+        site_bodies.append((m, [one(x) for x in body]))
+    nameable = [c.__name__ for c in ast_types.AstNodeWithName]
     return [
+        "/-- class names of `rattr.ast.types.AstNodeWithName`, in order -/",
+        f"def astNodeWithName : List String := {llist(nameable)}",
+        "/-- every `for` loop in a method of `FunctionAnalyser`, in source order: (method, target, iterable, body statements) -/",
+        "def visitLoops : List (String × String × String × List String) := ["
+        + ",\n  ".join(f"({lstr(m)}, {lstr(t)}, {lstr(i)}, {llist(b)})" for _, m, t, i, b in loops) + "]",
+        "/-- the statements (ast.unparse, docstring dropped) of get_and_verify_name / visit_compound_name / visit_NamedExpr -/",
+        "def nameSiteBodies : List (String × List String) := ["
+        + ",\n  ".join(f"({lstr(m)}, {llist(b)})" for m, b in site_bodies) + "]",
         "/-- (file, function, attribute chain) for every read off `Config()` in rattr/models/context/*.py and rattr/models/symbol/*.py -/",
         "def configReads : List (String × String × String) := ["
         + ",\n  ".join(f"({lstr(a)}, {lstr(b)}, {lstr(c)})" for a, b, c in sorted(reads)) + "]",
